@@ -1,5 +1,5 @@
 (* Comparators for allocation cells (correspondence files of C02/C12/C03). *)
-From FrameModel Require Import Num.QcTac Geometry.Rect Cases.Cmp Alloc.Alloc.
+From FrameModel Require Import Num.QcTac Geometry.Rect Cases.Cmp Alloc.Alloc Alloc.Hist.
 Open Scope Qc_scope.
 
 Definition alloc_eqb (a b : alloc) : bool :=
@@ -9,3 +9,46 @@ Definition cell_eqb (a b : cell) : bool :=
 Definition cells_eqb := list_eqb cell_eqb.
 Definition center_close (k : Z) (scale : Qc) (p : Qc * Qc) (x y : Qc) : bool :=
   qclose k scale (fst p) x && qclose k scale (snd p) y.
+
+(* ---- comparison up to the order of the cells (C02 / C12 constrain the set of cells, not their position in
+   Allocation.allocations, nor the order of the keys of an occupancy map) ---- *)
+Definition alloc_same (a b : alloc) : bool :=
+  Nat.eqb (List.length a) (List.length b) &&
+  forallb (fun p => match lookup (fst p) b with Some v => Qceqb v (snd p) | None => false end) a.
+Definition cell_same (a b : cell) : bool :=
+  rect_eqb (crect a) (crect b) && alloc_same (calloc a) (calloc b) && Nat.eqb (cdepth a) (cdepth b).
+(* cells of an allocation do not overlap, so (cx, cy) orders them totally *)
+Definition cell_leb (a b : cell) : bool :=
+  Qcltb (cx (crect a)) (cx (crect b)) ||
+  (Qceqb (cx (crect a)) (cx (crect b)) && Qcleb (cy (crect a)) (cy (crect b))).
+Fixpoint insert_cell (x : cell) (l : list cell) : list cell :=
+  match l with
+  | [] => [x]
+  | y :: r => if cell_leb x y then x :: l else y :: insert_cell x r
+  end.
+Definition sort_cells (l : list cell) : list cell := fold_right insert_cell [] l.
+Definition cells_same (a b : list cell) : bool := list_eqb cell_same (sort_cells a) (sort_cells b).
+
+(* observations of a history (Alloc/Hist.v): exact, centres within k roundings; lists of cells, of modules and of
+   fixed cells are compared as sets *)
+Definition areas_same (scale : Qc) (cells : list cell) (b : list (string * Qc * (Qc * Qc))) : bool :=
+  Nat.eqb (List.length (module_names cells)) (List.length b) &&
+  forallb (fun y => existsb (String.eqb (fst (fst y))) (module_names cells) &&
+                    Qceqb (area_of (fst (fst y)) cells) (snd (fst y)) &&
+                    center_close 8 scale (center_of (fst (fst y)) cells) (fst (snd y)) (snd (snd y))) b.
+Definition areas_eqb (scale : Qc) (a b : list (string * Qc * (Qc * Qc))) : bool :=
+  Nat.eqb (List.length a) (List.length b) &&
+  forallb (fun y => existsb (fun x => String.eqb (fst (fst x)) (fst (fst y)) && Qceqb (snd (fst x)) (snd (fst y)) &&
+                                      center_close 8 scale (snd x) (fst (snd y)) (snd (snd y))) a) b.
+Definition centres_same (a b : list (Qc * Qc)) : bool :=
+  Nat.eqb (List.length a) (List.length b) &&
+  forallb (fun y => existsb (fun x => Qceqb (fst x) (fst y) && Qceqb (snd x) (snd y)) a) b.
+Definition hobs_eqb (scale : Qc) (a b : hobs) : bool :=
+  match a, b with
+  | ONew x, ONew y => opt_eqb cells_same x y
+  | OFixed x, OFixed y => list_eqb centres_same x y
+  | OBool x, OBool y => Bool.eqb x y
+  | ONat x, ONat y => Nat.eqb x y
+  | OAreas x, OAreas y => areas_eqb scale x y
+  | _, _ => false
+  end.
